@@ -339,6 +339,15 @@ func genC09Fuzz(t *rapid.T) C09Fuzz {
 	}
 	if coin(t, "debug", 15) {
 		c.Argv = append(c.Argv, "--debug")
+		// --debug logs several lines per input rune: keep the volume (not a hang) bounded
+		if len(c.Stdin) > 16<<10 {
+			c.Stdin = c.Stdin[:16<<10]
+		}
+		for n, b := range c.Files {
+			if len(b) > 16<<10 {
+				c.Files[n] = b[:16<<10]
+			}
+		}
 	}
 	switch rapid.SampledFrom([]string{"", "", "", "o", "o-missing-dir", "o-directory"}).Draw(t, "output-path") {
 	case "o":
